@@ -85,6 +85,7 @@ ArgsFor(fd, fp, gr, thr, u8, u32, ms, qs, ls) ==
       [] c = "lh_persist" -> {<<Li(g), Li(k)>> : g \in ls, k \in ls}
       [] c = "arm" -> {<<b>> : b \in Bools}
       [] c = "lpp_position" -> {<<i>> \o t : i \in u8, t \in Diag(3, fd)}
+      [] c = "lpp_raw" -> {<<i, [k |-> "r", v |-> [j \in 1..n |-> (7 * j) % 256]]>> : i \in u8, n \in {0, 1, 27, 28, 29, 40}}
       [] c \in {"lpp_reboot", "lpp_mode"} -> {<<i, m>> : i \in u8, m \in u8}
       [] OTHER -> {}]
 
@@ -92,7 +93,7 @@ AllCmds == {"setpoint", "notify_stop", "stop_setpoint", "velocity_world", "zdist
             "position", "hl_takeoff", "hl_land", "hl_stop", "hl_group_mask", "hl_goto", "hl_spiral",
             "hl_start_traj", "hl_define_traj", "extpos", "loc_extpos", "extpose", "loc_extpose",
             "emergency_stop", "emergency_watchdog", "lh_persist", "arm", "crash_recovery",
-            "lpp_position", "lpp_reboot", "lpp_mode"}
+            "lpp_position", "lpp_raw", "lpp_reboot", "lpp_mode"}
 AllVersions == {-1, 3, 7, 8, 9, 10}
 
 FdQ == <<Zero, One, M2h, Tenth, NaN, Ovf>>
